@@ -42,7 +42,8 @@ Inactive == IF ActiveHigh THEN 0 ELSE 255
 K0 == [pressed |-> FALSE, deb |-> FALSE, pt |-> 0, rt |-> 0, rep |-> 0]
 \* monitors: held = physically down; hs = consecutive ticks held on a strobed column; sr = ticks since physical release
 \* (ReleaseTh = "long ago"); se = held-and-strobed ticks since this key's last press/repeat event; last = kind of its last event
-M0 == [held |-> FALSE, hs |-> 0, sr |-> ReleaseTh, se |-> 0, last |-> "none"]
+\* ab = consecutive scan ticks on which the key was NOT held on a strobed column (ReleaseTh = "long ago")
+M0 == [held |-> FALSE, hs |-> 0, sr |-> ReleaseTh, se |-> 0, last |-> "none", ab |-> ReleaseTh]
 
 Init ==
   /\ ks = [k \in Keys |-> K0] /\ kol = Inactive /\ koh = Inactive
@@ -85,6 +86,7 @@ MonTick(m, k, l, h, evk) ==
   [m EXCEPT !.hs = IF on THEN m.hs + 1 ELSE 0,
             !.sr = IF m.held THEN 0 ELSE (IF m.sr < ReleaseTh THEN m.sr + 1 ELSE m.sr),
             !.se = IF evk # "" THEN 0 ELSE (IF on THEN m.se + 1 ELSE m.se),
+            !.ab = IF on THEN 0 ELSE (IF m.ab < ReleaseTh THEN m.ab + 1 ELSE m.ab),
             !.last = IF evk = "" THEN m.last ELSE (IF evk = "R" THEN "R" ELSE (IF m.last \in {"P", "rep"} THEN "rep" ELSE "P"))]
 EvKind(evs, k) == IF \E i \in 1..Len(evs) : evs[i][1] = k THEN (CHOOSE e \in {evs[i] : i \in 1..Len(evs)} : e[1] = k)[2] ELSE ""
 HistAdd(hh, evs) == [k \in Keys |-> IF EvKind(evs, k) = "" THEN hh[k] ELSE Append(hh[k], EvKind(evs, k))]
@@ -124,7 +126,8 @@ Inject(k, rel) ==
   /\ ks' = [ks EXCEPT ![k] = IF rel THEN K0 ELSE [pressed |-> TRUE, deb |-> TRUE, pt |-> PressTh, rt |-> 0, rep |-> RepDelay]]
   /\ LET e == <<k, IF rel THEN "R" ELSE "P">> IN
      /\ fifo' = Enqueue(fifo, <<e>>) /\ newev' = <<e>> /\ hist' = [hist EXCEPT ![k] = Append(@, "I")]
-  /\ mon' = [mon EXCEPT ![k] = [@ EXCEPT !.held = ~rel, !.hs = IF rel THEN 0 ELSE PressTh, !.sr = IF rel THEN ReleaseTh ELSE 0, !.se = 0, !.last = IF rel THEN "R" ELSE "P"]]
+  /\ mon' = [mon EXCEPT ![k] = [@ EXCEPT !.held = ~rel, !.hs = IF rel THEN 0 ELSE PressTh, !.sr = IF rel THEN ReleaseTh ELSE 0, !.se = 0, !.last = IF rel THEN "R" ELSE "P",
+                                          !.ab = IF rel THEN ReleaseTh ELSE 0]]
   /\ ret' = {-1} /\ UNCHANGED <<kol, koh>>
 Consume ==
   /\ Step("Consume", [ev |-> "Consume"]) /\ fifo # <<>>
@@ -162,6 +165,9 @@ NoSkippedRepeat == RepInterval > 0 => \A k \in Keys :
 \* C14: "... and one release event afterwards": once a key with an outstanding press event is let go, its release
 \* event arrives within the release interval
 ReleaseFollows == \A k \in Keys : (~mon[k].held /\ mon[k].last \in {"P", "rep"}) => mon[k].sr < ReleaseTh
+\* C14: "... and one release event AFTERWARDS": a scan produces a release event only for a key that has not been seen (held
+\* on a strobed column) for the whole release interval - never for a key that is being held and scanned
+ReleaseJustified == [][\A k \in Keys : (EvKind(newev', k) = "R" /\ lastact' \in {"ScanTick", "ReadKIL"}) => mon[k].ab + 1 >= ReleaseTh]_vars
 \* C14: the queue never exceeds its capacity and only ever drops its oldest entries
 FifoBounded == Len(fifo) <= Cap
 IsSuffix(s, t) == Len(s) <= Len(t) /\ \A i \in 1..Len(s) : s[i] = t[Len(t) - Len(s) + i]
